@@ -673,7 +673,11 @@ def r18_8(ctx):
     al188.update(_am188(k))
 
     def fname(e):
-        return norm(_ea188(e.func, al188)) if isinstance(e.func, ast.Name) else norm(e.func)
+        nm = norm(_ea188(e.func, al188)) if isinstance(e.func, ast.Name) else norm(e.func)
+        imp = m.imports.get(nm) if hasattr(m, "imports") else None
+        if imp and len(imp) >= 2 and imp[1]:
+            nm = imp[1]  # `from math import isqrt as sqrt`: the imported object, not its local name
+        return nm
     while isinstance(expr, ast.Call) and len(expr.args) == 1 and not expr.keywords and fname(expr) in _MONOTONE + _COARSE:
         if fname(expr) in _COARSE:
             ctx.violation(f.fq, short(ret), f"{m.relpath}:{ret.lineno}", f"the distance is passed through `{fname(expr)}`, which is non-decreasing but not strictly increasing: palette entries at different distances get the same value, and min() then keeps the one with the lower index even when it is farther away - for some colours downgrade() does not return the nearest entry (a strictly increasing function such as sqrt, or no function at all, keeps the order)")
